@@ -51,6 +51,8 @@ def _item(d):
         t["message"] = "unsupported"
     elif d["type"] == "file_placeholders":
         t.update(source_params(d["source"]))
+    elif d["type"] == "value_placeholders":
+        pass
     c = d.get("cond")
     if c is not None:
         if c[0] == "product":
@@ -59,8 +61,22 @@ def _item(d):
             t["rule_conditions"] = [{"type": "processing_state", "key": c[1], "val": c[2]}]
     return t
 
-def pipeline_yaml(items):
-    return yaml.safe_dump({"name": "p", "priority": 10, "transformations": [_item(d) for d in items]})
+def pd_items(pd):
+    """a pipeline definition is a list of items, or {"items": [...], "vars": {...}}"""
+    return pd["items"] if isinstance(pd, dict) else pd
+
+def pd_vars(pd):
+    return pd.get("vars", {}) if isinstance(pd, dict) else {}
+
+def pipeline_yaml(pd):
+    d = {"name": "p", "priority": 10, "transformations": [_item(d) for d in pd_items(pd)]}
+    if pd_vars(pd):
+        d["vars"] = {k: (list(v) if isinstance(v, list) else v) for k, v in pd_vars(pd).items()}
+    if isinstance(pd, dict) and pd.get("post"):     # query postprocessing items (readers check only)
+        d["postprocessing"] = [dict(x) for x in pd["post"]]
+    if isinstance(pd, dict) and pd.get("fin"):
+        d["finalizers"] = [dict(x) for x in pd["fin"]]
+    return yaml.safe_dump(d)
 
 def allowed(items):
     """external sources are enabled per pipeline load; a definition with a source marked allow=False is loaded without"""
@@ -74,12 +90,12 @@ def _parsed(text):
     return copy.deepcopy(_PARSED[text])
 
 _PIPE_YAML = {}
-def make_pipeline(items):
-    """a new ProcessingPipeline object (new item objects) from the same definition"""
-    key = json.dumps(items, sort_keys=True)
+def make_pipeline(pd):
+    """a new ProcessingPipeline object (new item objects, new vars dict) from the same definition"""
+    key = json.dumps(pd, sort_keys=True)
     if key not in _PIPE_YAML:
-        _PIPE_YAML[key] = pipeline_yaml(items)
-    return ProcessingPipeline.from_dict(_parsed(_PIPE_YAML[key]), allow_external_sources=allowed(items))
+        _PIPE_YAML[key] = pipeline_yaml(pd)
+    return ProcessingPipeline.from_dict(_parsed(_PIPE_YAML[key]), allow_external_sources=allowed(pd_items(pd)))
 
 TEMPLATE_ATTRS = ["eq_expression", "re_expression", "cidr_expression", "startswith_expression",
                   "case_sensitive_startswith_expression", "endswith_expression",
@@ -90,9 +106,10 @@ def make_class(k, cdef):
     """a new backend class object per case (class attributes are part of the state under test)"""
     attrs = {
         "convert_or_as_in": False, "convert_and_as_in": False,
-        "backend_processing_pipeline": make_pipeline(cdef["bk"]),
+        "backend_processing_pipeline": make_pipeline({"items": cdef["bk"], "vars": cdef.get("bkvars", {})}),
         "output_format_processing_pipeline": defaultdict(
-            ProcessingPipeline, **{FMT[int(f)]: make_pipeline(its) for f, its in cdef["fmt"].items()}),
+            ProcessingPipeline, **{FMT[int(f)]: make_pipeline({"items": cdef["fmt"].get(f, []), "vars": cdef.get("fmtvars", {}).get(f, {})})
+                                   for f in set(cdef["fmt"]) | set(cdef.get("fmtvars", {}))}),
     }
     if cdef["ne"]:
         attrs.update({"convert_not_as_not_eq": True, "not_eq_token": "!=",
@@ -140,6 +157,9 @@ def filter_doc(f, n):
     flt["condition"] = f["cond"]
     return {"title": f"filter {n}", "logsource": {"product": PRODUCT[f["product"]]}, "filter": flt}
 
+def _plain(v):
+    return json.dumps(v, sort_keys=True, default=str)
+
 def err(e):
     return ["err", type(e).__name__, isinstance(e, SigmaError)]
 
@@ -155,6 +175,11 @@ class World:
         self.users = [make_pipeline(case["pdefs"][d]) for d in case["users"]]
         self.backends = []
         self.n = 0
+        pipes = list(self.users)
+        for c in self.classes:
+            pipes.append(c.backend_processing_pipeline)
+            pipes += list(c.output_format_processing_pipeline.values())
+        self.src_vars = [(p, copy.deepcopy(p.vars)) for p in pipes]
 
     def load(self, r):
         self.n += 1
@@ -163,6 +188,8 @@ class World:
     def internals(self):
         ci = _parse_condition_string.cache_info()
         vc = []
+        # vars of the pipeline definitions' own objects must never change (only the merged copy is updated)
+        src_vars_ok = all(_plain(p.vars) == _plain(v) for p, v in self.src_vars)
         for p in self.users:       # file_placeholders objects of the user pipeline objects, in order
             for it in p.items:
                 if isinstance(it.transformation, ExternalSourceBaseTransformation):
@@ -170,7 +197,7 @@ class World:
                     vc.append(None if c is None else [str(x) for x in c])
         return {"hits": ci.hits, "misses": ci.misses, "cached": ci.currsize, "vc": vc,
                 "hints": [k.__name__ for k in SigmaModifier._type_hint_cache],
-                "tpl_ok": all(getattr(c, a) == o[a] for c, o in zip(self.classes, self.orig) for a in TEMPLATE_ATTRS)
+                "tpl_ok": src_vars_ok and all(getattr(c, a) == o[a] for c, o in zip(self.classes, self.orig) for a in TEMPLATE_ATTRS)
                           # set on the class by TextQueryBackend.__new__: constant once an instance exists
                           and all(type(b).explicit_not_exists_expression == (type(b).field_not_exists_expression is not None)
                                   for b in self.backends)}
@@ -193,8 +220,9 @@ class World:
             except SigmaError as e:
                 out["r"] = err(e)
         elif kind == "new":
-            _, cls, user, collect = op
-            self.backends.append(self.classes[cls](self.users[user] if user is not None else None, collect_errors=collect))
+            cls, user, collect = op[1:4]
+            opts = op[4] if len(op) > 4 else {}      # backend options: keyword arguments of the constructor
+            self.backends.append(self.classes[cls](self.users[user] if user is not None else None, collect_errors=collect, **opts))
             out["r"] = ["ok"]
         elif kind == "init":
             _, b, fmt = op
@@ -214,7 +242,7 @@ class World:
                         self.n += 1
                         rules.append(SigmaFilter.from_dict(filter_doc(op[3], self.n)))
                     q = bk.convert(SigmaCollection(rules), FMT[fmt])
-                out["r"] = ["q", [x if isinstance(x, str) else repr(x) for x in q]]
+                out["r"] = ["q", [x if isinstance(x, str) else repr(x) for x in (q if isinstance(q, list) else [q])]]
             except Exception as e:  # noqa
                 out["r"] = err(e)
             out["errs"] = [type(e).__name__ for _, e in bk.errors[nerr:]]
@@ -233,15 +261,15 @@ def run_history(case):
     fresh, each = None, []
     if probe[0] in ("rule", "coll", "collf"):
         news = [op for op in case["ops"] if op[0] == "new"]
-        _, cls, user, collect = news[probe[1]]
+        new_op = ["new"] + news[probe[1]][1:]
         f = World(case)
-        f.step(["new", cls, user, collect])
+        f.step(new_op)
         fresh = f.step([probe[0], 0] + probe[2:])
         if probe[0] != "rule":
             # every rule of the collection on its own (with the filter), each in its own fresh setup
             for r in probe[2]:
                 f = World(case)
-                f.step(["new", cls, user, collect])
+                f.step(new_op)
                 each.append(f.step([probe[0], 0, [r]] + probe[3:]))
     return {"outs": outs, "fresh": fresh, "each": each}
 
